@@ -388,7 +388,11 @@ func genC16(e *emitter, tier string, seed uint64) {
 			if r.chance(30) {
 				sc = hex.EncodeToString(r.bytes(1 + r.n(30)))
 			}
-			ds = append(ds, fmt.Sprintf("%s:%d:%d:%s", hex.EncodeToString(r.bytes(32)), r.n(1000), r.u64()%2100000000000001, sc))
+			amount := r.u64() % 2100000000000001
+			if r.chance(30) {
+				amount = 0 // a zero amount after a non-zero one: nothing of the previous element may linger
+			}
+			ds = append(ds, fmt.Sprintf("%s:%d:%d:%s", hex.EncodeToString(r.bytes(32)), r.n(1000), amount, sc))
 		}
 		l := "-"
 		if len(ds) > 0 {
